@@ -238,6 +238,11 @@ def cases(rng, tier):
             tag = '%s-p%s' % (kind, 'big' if p > 2 ** 32 else 'mid' if p > 7 else 'small')
             if pu != p: tag += '-pusize%d' % pu
             out.append(fac_case(rng, f, p, pu, tag))
+    # primes next to the machine-word boundaries 2^31, 2^32, 2^63, 2^64 (the word-size copy is p itself below 2^64)
+    for pw in [2147483647, 4294967291, 4294967311, 9223372036854775783, 18446744073709551557]:
+        for _ in range(2 if not th else 10):
+            kind, f = structured(rng, pw, 5 if not th else 7)
+            out.append(fac_case(rng, f, pw, pw, kind + '-p-word-boundary'))
     # p beyond a machine word: every admissible pusize on the same input
     pbig = PRIMES_BIG[-1]
     for _ in range(4 if not th else 30):
